@@ -15,6 +15,7 @@ import (
 	"net/http"
 	"net/http/httptest"
 	"os"
+	"os/exec"
 	"path/filepath"
 	"sort"
 	"strconv"
@@ -34,8 +35,20 @@ import (
 )
 
 const longWait = 10 * time.Second
+const notifWait = 2 * time.Second
 
 var grace = 3 * time.Millisecond
+
+// journal of every operation performed, written through as it happens: if the client under test brings
+// the process down (a panic in one of its goroutines cannot be recovered here), the supervising parent
+// process reports the history that led to it as a failing input
+var journal *os.File
+
+func jlog(format string, a ...interface{}) {
+	if journal != nil {
+		fmt.Fprintf(journal, format+"\n", a...)
+	}
+}
 
 // ---------------------------------------------------------------------------------------------
 // Coq printing helpers
@@ -466,7 +479,7 @@ func runHTTPCase(r *cv.Rand, st *cv.Stats, limit, nCallers int, fails *[]interfa
 // free-running concurrent workload: every caller issues several requests; the backend answers after a
 // short random delay, echoing a wrong id half of the time.
 func runHTTPStress(r *cv.Rand, st *cv.Stats, limit, nCallers, perCaller int, fails *[]interface{}) {
-	var cur, max int64
+	var cur, max, plain int64
 	var mu sync.Mutex
 	ids := map[string]int{}
 	srv := httptest.NewServer(http.HandlerFunc(func(w http.ResponseWriter, req *http.Request) {
@@ -480,12 +493,17 @@ func runHTTPStress(r *cv.Rand, st *cv.Stats, limit, nCallers, perCaller int, fai
 		body, _ := io.ReadAll(req.Body)
 		var rq struct {
 			ID     json.RawMessage   `json:"id"`
+			Method string            `json:"method"`
 			Params []json.RawMessage `json:"params"`
 		}
 		_ = json.Unmarshal(body, &rq)
-		mu.Lock()
-		ids[string(rq.ID)]++
-		mu.Unlock()
+		if rq.Method == "verif_plain" {
+			atomic.AddInt64(&plain, 1) // the second client below (own id counter)
+		} else {
+			mu.Lock()
+			ids[string(rq.ID)]++
+			mu.Unlock()
+		}
 		time.Sleep(time.Duration(200+len(body)%7*100) * time.Microsecond)
 		atomic.AddInt64(&cur, -1)
 		w.Header().Set("Content-Type", "application/json")
@@ -496,6 +514,14 @@ func runHTTPStress(r *cv.Rand, st *cv.Stats, limit, nCallers, perCaller int, fai
 		p0 := "0"
 		if len(rq.Params) > 0 {
 			p0 = string(rq.Params[0])
+		}
+		if len(rq.Params) > 1 && string(rq.Params[1]) == "true" {
+			// a JSON-RPC error whose message names the request it answers
+			if len(body)%3 == 0 {
+				w.WriteHeader(500)
+			}
+			fmt.Fprintf(w, `{"jsonrpc":"2.0","id":%s,"error":{"code":-32005,"message":%s}}`, echo, p0)
+			return
 		}
 		fmt.Fprintf(w, `{"jsonrpc":"2.0","id":%s,"result":%s}`, echo, p0)
 	}))
@@ -511,6 +537,23 @@ func runHTTPStress(r *cv.Rand, st *cv.Stats, limit, nCallers, perCaller int, fai
 			for j := 0; j < perCaller; j++ {
 				tag := fmt.Sprintf(`"c%d-%d"`, c, j)
 				orig := fmt.Sprintf(`%d`, c*1000+j)
+				if c%2 == 1 {
+					// the CallRPC wrapper: the result (or the backend's error) of its own request
+					var out string
+					wantErr := j%3 == 2
+					e := rc.CallRPC(context.Background(), &out, "verif_stress", json.RawMessage(tag), wantErr)
+					ok := false
+					if wantErr {
+						ok = e != nil && e.Code == -32005 && `"`+e.Message+`"` == tag
+					} else {
+						ok = e == nil && `"`+out+`"` == tag
+					}
+					if !ok {
+						atomic.AddInt64(&bad, 1)
+						firstBad.CompareAndSwap(nil, fmt.Sprintf("caller %d CallRPC %d (wantErr=%v): err=%v result=%q", c, j, wantErr, e, out))
+					}
+					continue
+				}
 				res, err := rc.SyncRequest(context.Background(), &rpcbackend.RPCRequest{ID: fftypes.JSONAnyPtr(orig), Method: "verif_stress", Params: []*fftypes.JSONAny{fftypes.JSONAnyPtr(tag)}})
 				if err != nil || res == nil || res.ID == nil || string(*res.ID) != orig || res.Result == nil || string(*res.Result) != tag {
 					atomic.AddInt64(&bad, 1)
@@ -521,6 +564,17 @@ func runHTTPStress(r *cv.Rand, st *cv.Stats, limit, nCallers, perCaller int, fai
 	}
 	wg.Wait()
 	total := nCallers * perCaller
+	{
+		// the plain constructor (no limit) and a parameter that cannot be marshalled: an error, no backend request
+		rc0 := rpcbackend.NewRPCClient(resty.New().SetLogger(quietLog{}).SetBaseURL(srv.URL))
+		var out string
+		e1 := rc0.CallRPC(context.Background(), &out, "verif_plain", make(chan int))
+		after := atomic.LoadInt64(&plain)
+		e2 := rc0.CallRPC(context.Background(), &out, "verif_plain", json.RawMessage(`"plain"`))
+		if e1 == nil || after != 0 || e2 != nil || out != "plain" || atomic.LoadInt64(&plain) != 1 {
+			*fails = append(*fails, map[string]interface{}{"what": "HTTP CallRPC: an unmarshallable parameter must fail without a backend request, a plain call must return its own result", "err1": fmt.Sprint(e1), "err2": fmt.Sprint(e2), "result": out})
+		}
+	}
 	if bad > 0 {
 		*fails = append(*fails, map[string]interface{}{"what": "concurrent SyncRequest returned a reply that is not its own (id or result)", "limit": limit, "callers": nCallers, "bad": bad, "first": firstBad.Load()})
 	}
@@ -559,12 +613,27 @@ type wsServer struct {
 	conns       []*websocket.Conn
 	wmu         sync.Mutex
 	barrierSeen chan wsFrame
+	hold        chan struct{} // when set: connection attempts wait until it is closed (the connection stays down)
+	held        chan struct{} // a connection attempt is waiting at hold
+}
+
+func (s *wsServer) setHold(ch chan struct{}) {
+	s.mu.Lock()
+	s.hold = ch
+	s.mu.Unlock()
 }
 
 func newWSServer() *wsServer {
-	s := &wsServer{accepts: make(chan int, 64), frames: make(chan wsFrame, 1024)}
+	s := &wsServer{accepts: make(chan int, 64), frames: make(chan wsFrame, 1024), held: make(chan struct{}, 64)}
 	up := websocket.Upgrader{}
 	s.srv = httptest.NewServer(http.HandlerFunc(func(w http.ResponseWriter, r *http.Request) {
+		s.mu.Lock()
+		hold := s.hold
+		s.mu.Unlock()
+		if hold != nil {
+			s.held <- struct{}{}
+			<-hold
+		}
 		c, err := up.Upgrade(w, r, nil)
 		if err != nil {
 			return
@@ -668,15 +737,82 @@ type wsDriver struct {
 	uuids        map[string]int // LocalID -> handle
 	active       map[int]uint64 // sub handle -> server id it was last confirmed with
 	oldSubIDs    []uint64
+	staleSubReqs []uint64 // ids of eth_subscribe requests that were unanswered when their connection dropped
+	staleCalls   []uint64 // ids of calls that were unanswered when their connection dropped
 	unsubbing    map[int]int // sub handle -> call handle of its eth_unsubscribe (if one is outstanding)
 	unsubbed     map[int]bool
 	subCancelled map[int]bool
 	maxID        uint64
 	failed       string
 	closedSubs   sync.Map // sub handle -> its notifications channel was seen closed
+	// property oracle evaluated here on the implementation alone (independent of the Coq model): the ownership
+	// table of Spec.v.  own: server id -> the subscription it was last confirmed for on the current connection;
+	// configured: Subscribe started and neither cancelled nor unsubscribed
+	own        map[uint64]int
+	ambiguous  map[uint64]bool
+	configured map[int]bool
+	pause      map[int]chan chan struct{} // per consumer: send a channel to make it stop reading until that channel is closed
+	stop       chan struct{}              // closed at the end of the sequence
+	oracle     []string // violations of the routing clause seen in this sequence
 }
 
-func (d *wsDriver) add(coq, desc string) { d.ops = append(d.ops, coq); d.dops = append(d.dops, desc) }
+func (d *wsDriver) add(coq, desc string) {
+	d.ops = append(d.ops, coq)
+	d.dops = append(d.dops, desc)
+	jlog("%s", desc)
+}
+
+// ---- ownership oracle
+func (d *wsDriver) ownConfirm(s int, x uint64) {
+	if d.configured[s] {
+		if o, ok := d.own[x]; ok && o != s {
+			// the server handed the id of a live subscription of this connection to another one: ids no longer
+			// identify a subscription, the ownership clause says nothing about x (compared with the model only)
+			d.ambiguous[x] = true
+			d.st.Hit("ws:confirm:id-of-a-live-subscription (ownership oracle off for that id)")
+		}
+		d.own[x] = s
+	}
+}
+func (d *wsDriver) ownRelease(s int) {
+	delete(d.configured, s)
+	for x, o := range d.own {
+		if o == s {
+			delete(d.own, x)
+		}
+	}
+}
+func (d *wsDriver) ownDrop() { d.own = map[uint64]int{}; d.ambiguous = map[uint64]bool{} }
+
+// a notification carrying server id x (nil = no usable id) was handled; got = the consumers that received something
+func (d *wsDriver) ownCheck(x *uint64, got []notifEv) {
+	want := -1
+	if x != nil && d.ambiguous[*x] {
+		return
+	}
+	if x != nil {
+		if o, ok := d.own[*x]; ok {
+			want = o
+		}
+	}
+	xs := "none"
+	if x != nil {
+		xs = hexStr(*x)
+	}
+	defer func() {
+		if len(d.oracle) > 0 {
+			jlog("ORACLE: %s", d.oracle[len(d.oracle)-1])
+		}
+	}()
+	switch {
+	case want < 0 && len(got) > 0:
+		d.oracle = append(d.oracle, fmt.Sprintf("a notification for server id %s, which no subscription owns on this connection, was delivered to subscription %d", xs, got[0].s))
+	case want >= 0 && len(got) == 0:
+		d.oracle = append(d.oracle, fmt.Sprintf("a notification for server id %s was delivered to nobody; its current owner is subscription %d", xs, want))
+	case want >= 0 && (len(got) != 1 || got[0].s != want):
+		d.oracle = append(d.oracle, fmt.Sprintf("a notification for server id %s (owner: subscription %d) was delivered %d times, first to subscription %d", xs, want, len(got), got[0].s))
+	}
+}
 
 // wait for the next frame the client sends (other than barrier frames)
 func (d *wsDriver) nextFrame(timeout time.Duration) (wsFrame, bool) {
@@ -866,21 +1002,42 @@ func (d *wsDriver) startConsumer(s int, sub rpcbackend.Subscription) {
 	}
 	d.subObjs[s] = sub
 	ch := sub.Notifications()
+	pause := make(chan chan struct{})
+	d.pause[s] = pause
 	go func() {
-		for n := range ch {
-			d.notifs <- notifEv{s: s, cur: n.CurrentSubID, res: n.Result}
+		for {
+			select {
+			case n, ok := <-ch:
+				if !ok {
+					d.closedSubs.Store(s, true)
+					return
+				}
+				d.notifs <- notifEv{s: s, cur: n.CurrentSubID, res: n.Result}
+			case resume := <-pause:
+				// (unbuffered: once the driver's send has completed this consumer is not reading its notifications)
+				select {
+				case <-resume:
+				case <-d.stop:
+					return
+				}
+			case <-d.stop:
+				return
+			}
 		}
-		d.closedSubs.Store(s, true)
 	}()
 }
 
-func (d *wsDriver) takeNotifs(expect int) string {
+func (d *wsDriver) takeNotifs(expect int) (string, []notifEv) {
 	var got []string
-	deadline := time.After(longWait)
+	var evs []notifEv
+	// the barrier has returned, so the receive loop has already handed the notification over; what remains is the
+	// consumer goroutine being scheduled
+	deadline := time.After(notifWait)
 	for len(got) < expect {
 		select {
 		case n := <-d.notifs:
 			got = append(got, d.notifCoq(n))
+			evs = append(evs, n)
 		case <-deadline:
 			expect = 0
 		}
@@ -890,8 +1047,9 @@ func (d *wsDriver) takeNotifs(expect int) string {
 		select {
 		case n := <-d.notifs:
 			got = append(got, d.notifCoq(n))
+			evs = append(evs, n)
 		case <-t:
-			return "[" + strings.Join(got, "; ") + "]"
+			return "[" + strings.Join(got, "; ") + "]", evs
 		}
 	}
 }
@@ -906,7 +1064,15 @@ func (d *wsDriver) notifCoq(n notifEv) string {
 	return fmt.Sprintf("(%d%%nat, %s, %d)", n.s, optN(cur), tag)
 }
 
-func (d *wsDriver) sendFrame(coq, desc, json string, expectNotif int) {
+// notif: the frame is a notification; x = its usable server id, if any
+func (d *wsDriver) sendFrame(coq, desc, json string, notif bool, x *uint64) {
+	expectNotif := 0
+	if notif && x != nil {
+		if _, ok := d.own[*x]; ok {
+			expectNotif = 1
+		}
+	}
+	jlog("server sends %s", json)
 	d.srv.send(d.conn, json)
 	if !d.barrier() {
 		return
@@ -916,9 +1082,109 @@ func (d *wsDriver) sendFrame(coq, desc, json string, expectNotif int) {
 	bd := d.dops[len(d.dops)-1]
 	d.ops = d.ops[:len(d.ops)-1]
 	d.dops = d.dops[:len(d.dops)-1]
-	ns := d.takeNotifs(expectNotif)
+	ns, evs := d.takeNotifs(expectNotif)
+	if notif {
+		d.ownCheck(x, evs)
+	} else if len(evs) > 0 {
+		d.oracle = append(d.oracle, fmt.Sprintf("a reply frame made subscription %d receive a notification", evs[0].s))
+	}
 	d.add(fmt.Sprintf("WFrame %s %s", coq, ns), desc+" -> notifications "+ns)
 	d.add(b, bd)
+}
+
+// UnsubscribeAll at the end of a sequence: every configured subscription is unsubscribed (one after the other, in
+// map order); those with a server id send eth_unsubscribe, which the script answers.  Afterwards nothing is
+// configured, every notifications channel is closed and no id is owned by anybody.
+func (d *wsDriver) unsubscribeAll(ctx context.Context) {
+	if len(d.subWaiting) > 0 || len(d.unsubbing) > 0 {
+		return
+	}
+	todo := map[int]bool{}
+	byID := map[uint64]int{}
+	for s := range d.configured {
+		if _, ok := d.subObjs[s]; !ok || d.unsubbed[s] {
+			return
+		}
+		todo[s] = true
+		if x, ok := d.active[s]; ok {
+			if _, dup := byID[x]; dup {
+				return // two subscriptions confirmed with the same server id: the frames do not tell them apart
+			}
+			byID[x] = s
+		}
+	}
+	if len(todo) == 0 {
+		return
+	}
+	d.st.Hit(fmt.Sprintf("ws:unsubscribe-all:subs=%d:active=%d", min(len(todo), 3), min(len(byID), 3)))
+	jlog("UnsubscribeAll called")
+	done := make(chan *rpcbackend.RPCError, 1)
+	go func() { done <- d.rc.UnsubscribeAll(ctx) }()
+	finish := func(s int, withFrame bool) {
+		closed := d.waitClosed(s)
+		d.add(fmt.Sprintf("WUnsubRet %d true %s", s, coqBool(closed)), fmt.Sprintf("UnsubscribeAll: s=%d done closed=%v", s, closed))
+		d.unsubbed[s] = true
+		delete(d.active, s)
+		delete(d.pendSubs, s)
+		delete(todo, s)
+		d.ownRelease(s)
+	}
+	for {
+		select {
+		case f := <-d.srv.frames:
+			id, _ := parseReqID(f.idRaw)
+			if id > d.maxID {
+				d.maxID = id
+			}
+			var xs string
+			if len(f.params) > 0 {
+				_ = json.Unmarshal(f.params[0], &xs)
+			}
+			x := parseHexJSON([]byte(`"` + xs + `"`))
+			s, known := -1, false
+			if x != nil {
+				s, known = byID[*x]
+			}
+			if f.method != "eth_unsubscribe" || !known || !todo[s] {
+				d.failed = fmt.Sprintf("UnsubscribeAll: unexpected frame %s %s", f.method, xs)
+				return
+			}
+			k := d.nextK
+			d.nextK++
+			d.add(fmt.Sprintf("WUnsub %d %d (Some (%d, %d))", s, k, id, *x), fmt.Sprintf("UnsubscribeAll: s=%d eth_unsubscribe id=%s sub=%s", s, f.idRaw, xs))
+			frame := fmt.Sprintf(`{"jsonrpc":"2.0","id":%s,"result":true}`, fmtReqID(id))
+			jlog("server sends %s", frame)
+			d.srv.send(d.conn, frame)
+			d.add(fmt.Sprintf("WFrame (FReply (Some %d) false None) []", id), "reply to eth_unsubscribe "+frame)
+			finish(s, true)
+		case e := <-done:
+			// the ones without a server id made no frame
+			rest := []int{}
+			for s := range todo {
+				rest = append(rest, s)
+			}
+			sort.Ints(rest)
+			for _, s := range rest {
+				if _, had := d.active[s]; had {
+					d.oracle = append(d.oracle, fmt.Sprintf("UnsubscribeAll returned without an eth_unsubscribe for subscription %d, which owns a server id", s))
+				}
+				k := d.nextK
+				d.nextK++
+				d.add(fmt.Sprintf("WUnsub %d %d None", s, k), fmt.Sprintf("UnsubscribeAll: s=%d (no frame)", s))
+				finish(s, false)
+			}
+			if e != nil {
+				d.oracle = append(d.oracle, "UnsubscribeAll returned an error although every eth_unsubscribe was answered: "+e.Message)
+			}
+			if n := len(d.rc.Subscriptions()); n != 0 {
+				d.oracle = append(d.oracle, fmt.Sprintf("%d subscriptions still configured after UnsubscribeAll", n))
+			}
+			return
+		case <-time.After(longWait):
+			d.failed = "UnsubscribeAll neither sent a frame nor returned"
+			return
+		}
+	}
 }
 
 func (d *wsDriver) subsCheck() {
@@ -948,32 +1214,152 @@ func sortedKeys(m map[int]uint64) []int {
 	return ks
 }
 
-func runWSCase(r *cv.Rand, st *cv.Stats, nOps int, profile int) (string, wsDesc, string) {
+type wsHint struct {
+	confirmSub int    // >= 0: the reply confirms the pending eth_subscribe of this subscription
+	resultID   uint64 // != 0: ... with this server id
+	replyCall  int    // >= 0: the reply answers this call (success)
+	replyStale bool   // the reply answers an eth_subscribe that was still pending when an earlier connection dropped
+	notifID    uint64 // != 0: the notification carries this server id
+	unsubSub   int    // >= 0: unsubscribe this subscription
+}
+
+var noHint = wsHint{confirmSub: -1, replyCall: -1, unsubSub: -1}
+
+// one step of a directed scenario: operation class (as drawn by the random script), hint, applicable?
+type planStep func() (int, wsHint, bool)
+
+func runWSCase(r *cv.Rand, st *cv.Stats, nOps int, profile int) (string, wsDesc, string, []string) {
 	srv := newWSServer()
 	defer srv.srv.Close()
 	ctx, cancelAll := context.WithCancel(context.Background())
 	defer cancelAll()
 	rc := rpcbackend.NewWSRPCClient(&wsclient.WSConfig{HTTPURL: srv.srv.URL, InitialDelay: 500 * time.Microsecond, MaximumDelay: 2 * time.Millisecond})
 	if err := rc.Connect(ctx); err != nil {
-		return "", wsDesc{}, "connect: " + err.Error()
+		return "", wsDesc{}, "connect: " + err.Error(), nil
 	}
 	defer rc.Close()
 	d := &wsDriver{r: r, st: st, srv: srv, rc: rc,
 		callRes: make(chan callRes, 256), subRes: make(chan subRes, 64), unsRes: make(chan unsubRes, 64), notifs: make(chan notifEv, 256),
 		outCalls: map[int]uint64{}, cancels: map[int]context.CancelFunc{}, pendSubs: map[int]uint64{}, subWaiting: map[int]bool{},
 		subCancel: map[int]context.CancelFunc{}, subObjs: map[int]rpcbackend.Subscription{}, uuids: map[string]int{},
-		active: map[int]uint64{}, unsubbing: map[int]int{}, unsubbed: map[int]bool{}, subCancelled: map[int]bool{}}
+		active: map[int]uint64{}, unsubbing: map[int]int{}, unsubbed: map[int]bool{}, subCancelled: map[int]bool{},
+		own: map[uint64]int{}, ambiguous: map[uint64]bool{}, configured: map[int]bool{}, pause: map[int]chan chan struct{}{}, stop: make(chan struct{})}
+	defer close(d.stop)
 	select {
 	case d.conn = <-srv.accepts:
 	case <-time.After(longWait):
-		return "", wsDesc{}, "no accept"
+		return "", wsDesc{}, "no accept", nil
 	}
 	nextSubID := uint64(1)
 
-	for step := 0; step < nOps && d.failed == ""; step++ {
+	// ---- directed scenarios (a third of the sequences start with one; the random script continues afterwards)
+	idOf := func(s int) uint64 {
+		for x, o := range d.own {
+			if o == s {
+				return x
+			}
+		}
+		return 0
+	}
+	old := map[int]uint64{}
+	rememberAs := func(key, s int) planStep {
+		return func() (int, wsHint, bool) { old[key] = idOf(s); return 0, noHint, false }
+	}
+	remember := func(s int) planStep { return rememberAs(s, s) }
+	stSub := func() (int, wsHint, bool) { return 60, noHint, true }
+	stDrop := func() (int, wsHint, bool) { return 80, noHint, true }
+	stConfirm := func(s int, id func() uint64) planStep {
+		return func() (int, wsHint, bool) {
+			h := noHint
+			h.confirmSub, h.resultID = s, id()
+			_, ok := d.pendSubs[s]
+			return 20, h, ok
+		}
+	}
+	stNotif := func(id func() uint64) planStep {
+		return func() (int, wsHint, bool) {
+			h := noHint
+			h.notifID = id()
+			return 50, h, h.notifID != 0
+		}
+	}
+	stUnsub := func(s int) planStep {
+		return func() (int, wsHint, bool) {
+			h := noHint
+			h.unsubSub = s
+			_, have := d.subObjs[s]
+			return 70, h, have && !d.unsubbed[s]
+		}
+	}
+	stReplyStale := func() (int, wsHint, bool) {
+		h := noHint
+		h.replyStale = true
+		return 20, h, len(d.staleSubReqs) > 0
+	}
+	stAnswerUnsub := func(s int) planStep {
+		return func() (int, wsHint, bool) {
+			h := noHint
+			k, ok := d.unsubbing[s]
+			h.replyCall = k
+			return 20, h, ok
+		}
+	}
+	fresh := func() uint64 { return 0 }
+	oldOf := func(s int) func() uint64 { return func() uint64 { return old[s] } }
+	curOf := func(s int) func() uint64 { return func() uint64 { return idOf(s) } }
+	var plan []planStep
+	switch profile % 6 {
+	case 1:
+		// after a reconnect the server hands the id subscription 0 had before to subscription 1, and 0 is
+		// unsubscribed before it is confirmed again: the id now belongs to 1
+		plan = []planStep{stSub, stConfirm(0, fresh), stSub, stConfirm(1, fresh), stNotif(curOf(0)), remember(0), remember(1), stDrop,
+			stConfirm(1, oldOf(0)), stNotif(oldOf(0)), stUnsub(0), stNotif(oldOf(0)), stNotif(oldOf(1)), stConfirm(0, fresh), stNotif(oldOf(0))}
+		st.Hit("ws:plan:id-reused-by-other-sub-after-reconnect")
+	case 3:
+		// ids of the old connection after a reconnect, before and after the re-confirmation and after unsubscribing
+		plan = []planStep{stSub, stConfirm(0, fresh), stNotif(curOf(0)), remember(0), stSub, stDrop, stNotif(oldOf(0)),
+			stReplyStale, stNotif(oldOf(20)), stConfirm(0, fresh), stNotif(oldOf(0)), stNotif(curOf(0)), rememberAs(10, 0), stUnsub(0), stNotif(oldOf(10)), stNotif(oldOf(0)), stAnswerUnsub(0), stNotif(oldOf(10)), stNotif(oldOf(0))}
+		st.Hit("ws:plan:old-connection-ids-after-reconnect")
+	case 5:
+		// two reconnects in a row, the second while the re-request of the first is unconfirmed; unsubscribe, then
+		// the confirmations and notifications for every id the subscription ever had
+		plan = []planStep{stSub, stConfirm(0, fresh), remember(0), stDrop, stDrop, stReplyStale, stNotif(oldOf(20)), stConfirm(0, fresh), stNotif(oldOf(20)), stNotif(oldOf(0)), stNotif(curOf(0)),
+			stSub, stDrop, stConfirm(1, oldOf(0)), stNotif(oldOf(0)), stUnsub(1), stAnswerUnsub(1), stNotif(oldOf(0)), stConfirm(0, oldOf(0)), stNotif(oldOf(0))}
+		st.Hit("ws:plan:repeated-reconnects")
+	}
+
+	nOps += len(plan)
+	// a violation of the routing oracle ends the sequence: it is reported with the history up to here (going on
+	// could make a broken client send on a closed channel, which ends the process)
+	for step := 0; step < nOps && d.failed == "" && len(d.oracle) == 0; step++ {
 		c := r.Intn(100)
+		h := noHint
+		for len(plan) > 0 {
+			ps := plan[0]
+			plan = plan[1:]
+			if pc, ph, ok := ps(); ok {
+				c, h = pc, ph
+				break
+			}
+		}
 		switch {
 		case c < 18: // ---- new call
+			if r.Intn(12) == 0 {
+				// a parameter that cannot be marshalled: an error at once, nothing registered, no id consumed (the
+				// next frame's id shows it)
+				e := rc.CallRPC(ctx, nil, "verif_call", make(chan int))
+				if e == nil {
+					d.oracle = append(d.oracle, "CallRPC with an unmarshallable parameter returned no error")
+				}
+				select {
+				case f := <-srv.frames:
+					d.oracle = append(d.oracle, fmt.Sprintf("CallRPC with an unmarshallable parameter sent a frame (%s)", f.method))
+				default:
+				}
+				jlog("CallRPC with an unmarshallable parameter: err=%v", e)
+				st.Hit("ws:call:bad-param")
+				continue
+			}
 			k := d.nextK
 			d.nextK++
 			cctx, cancel := context.WithCancel(ctx)
@@ -1009,7 +1395,33 @@ func runWSCase(r *cv.Rand, st *cv.Stats, nOps int, profile int) (string, wsDesc,
 				unsubCalls = append(unsubCalls, k)
 			}
 			sort.Ints(unsubCalls)
+			if _, ok := d.pendSubs[h.confirmSub]; ok && h.confirmSub >= 0 {
+				pick = 100
+			}
+			if _, ok := d.outCalls[h.replyCall]; ok && h.replyCall >= 0 {
+				pick = 101
+			}
+			if h.replyStale && len(d.staleSubReqs) > 0 {
+				pick = 102
+			}
+			staleConfirm := false
 			switch {
+			case pick == 102 || (pick >= 14 && pick < 16 && len(d.staleSubReqs) > 0 && r.Bool()):
+				// a late answer to an eth_subscribe of an earlier connection: must have no effect at all
+				id := d.staleSubReqs[len(d.staleSubReqs)-1-r.Intn(min(len(d.staleSubReqs), 3))]
+				fidCoq, idJSON, target = fmt.Sprintf("(Some %d)", id), fmtReqID(id), "stale-subscribe-request"
+				staleConfirm = true
+			case pick >= 16 && pick < 18 && len(d.staleCalls) > 0 && r.Bool():
+				id := d.staleCalls[r.Intn(len(d.staleCalls))]
+				fidCoq, idJSON, target = fmt.Sprintf("(Some %d)", id), fmtReqID(id), "stale-call"
+			case pick == 100:
+				ts = h.confirmSub
+				id := d.pendSubs[ts]
+				fidCoq, idJSON, target = fmt.Sprintf("(Some %d)", id), fmtReqID(id), "confirm"
+			case pick == 101:
+				tk = h.replyCall
+				id := d.outCalls[tk]
+				fidCoq, idJSON, target = fmt.Sprintf("(Some %d)", id), fmtReqID(id), "call"
 			case pick < 9 && len(calls) > 0:
 				tk = calls[r.Intn(len(calls))]
 				id := d.outCalls[tk]
@@ -1038,7 +1450,7 @@ func runWSCase(r *cv.Rand, st *cv.Stats, nOps int, profile int) (string, wsDesc,
 				fidCoq, target = "None", "malformed-id"
 			}
 			st.Hit("ws:reply:" + target)
-			iserr := r.Intn(6) == 0
+			iserr := r.Intn(6) == 0 && pick < 100
 			// payload
 			var resCoq, body string
 			if iserr {
@@ -1054,17 +1466,28 @@ func runWSCase(r *cv.Rand, st *cv.Stats, nOps int, profile int) (string, wsDesc,
 				}
 			} else {
 				pv := r.Intn(12)
+				if pick >= 100 {
+					pv = 0
+				}
 				switch {
 				case pv < 9:
 					v := uint64(100000 + step*16 + r.Intn(16))
-					if target == "confirm" || r.Intn(4) == 0 {
+					if target == "confirm" || staleConfirm || r.Intn(4) == 0 {
 						// a server subscription id: usually fresh, sometimes one seen before
-						if len(d.oldSubIDs) > 0 && r.Intn(5) == 0 {
+						if h.resultID != 0 {
+							v = h.resultID
+							st.Hit("ws:confirm:reused-server-id")
+						} else if len(d.oldSubIDs) > 0 && r.Intn(5) == 0 && pick < 100 {
 							v = d.oldSubIDs[r.Intn(len(d.oldSubIDs))]
 							st.Hit("ws:confirm:reused-server-id")
 						} else {
 							v = nextSubID
 							nextSubID++
+						}
+						if staleConfirm {
+							// notifications with this id are tried later (old-or-active-id); nobody owns it
+							d.oldSubIDs = append(d.oldSubIDs, v)
+							old[20] = v
 						}
 					}
 					resCoq, body = fmt.Sprintf("(Some %d)", v), fmt.Sprintf(`"result":"%s"`, hexStr(v))
@@ -1111,24 +1534,37 @@ func runWSCase(r *cv.Rand, st *cv.Stats, nOps int, profile int) (string, wsDesc,
 					d.active[ts] = v
 					d.oldSubIDs = append(d.oldSubIDs, v)
 				}
+				if !iserr && strings.HasPrefix(resCoq, "(Some") {
+					var v uint64
+					fmt.Sscanf(resCoq, "(Some %d)", &v)
+					d.ownConfirm(ts, v)
+				}
 			}
-			d.sendFrame(fmt.Sprintf("(FReply %s %s %s)", fidCoq, coqBool(iserr), resCoq), "reply "+target+" "+frame, frame, 0)
+			d.sendFrame(fmt.Sprintf("(FReply %s %s %s)", fidCoq, coqBool(iserr), resCoq), "reply "+target+" "+frame, frame, false, nil)
 			d.collect(expC, expS, expU)
 		case c < 58: // ---- notification
 			var xCoq, sub string
 			expect := 0
 			act := sortedKeys(d.active)
 			pick := r.Intn(10)
+			var xp *uint64
 			switch {
+			case h.notifID != 0:
+				x := h.notifID
+				xCoq, sub = fmt.Sprintf("(Some %d)", x), fmt.Sprintf(`"%s"`, hexStr(x))
+				xp = &x
+				st.Hit("ws:notif:planned")
 			case pick < 6 && len(act) > 0:
 				s := act[r.Intn(len(act))]
 				x := d.active[s]
 				xCoq, sub = fmt.Sprintf("(Some %d)", x), fmt.Sprintf(`"%s"`, hexStr(x))
+				xp = &x
 				expect = 1
 				st.Hit("ws:notif:active")
 			case pick < 8 && len(d.oldSubIDs) > 0:
 				x := d.oldSubIDs[r.Intn(len(d.oldSubIDs))]
 				xCoq, sub = fmt.Sprintf("(Some %d)", x), fmt.Sprintf(`"%s"`, hexStr(x))
+				xp = &x
 				for _, ax := range d.active {
 					if ax == x {
 						expect = 1
@@ -1138,6 +1574,7 @@ func runWSCase(r *cv.Rand, st *cv.Stats, nOps int, profile int) (string, wsDesc,
 			case pick < 9:
 				x := uint64(500000 + r.Intn(100))
 				xCoq, sub = fmt.Sprintf("(Some %d)", x), fmt.Sprintf(`"%s"`, hexStr(x))
+				xp = &x
 				st.Hit("ws:notif:unknown-id")
 			default:
 				xCoq, sub = "None", []string{`""`, `null`, `17`}[r.Intn(3)]
@@ -1148,9 +1585,26 @@ func runWSCase(r *cv.Rand, st *cv.Stats, nOps int, profile int) (string, wsDesc,
 			if xCoq == "None" && r.Intn(3) == 0 {
 				frame = `{"jsonrpc":"2.0","method":"eth_subscription"}`
 			}
-			d.sendFrame(fmt.Sprintf("(FNotif %s %d)", xCoq, tag), "notification "+frame, frame, expect)
+			d.sendFrame(fmt.Sprintf("(FNotif %s %d)", xCoq, tag), "notification "+frame, frame, true, xp)
+			_ = expect
 		case c < 68: // ---- subscribe
 			if len(d.subObjs)+len(d.subWaiting) >= 6 {
+				continue
+			}
+			if r.Intn(12) == 0 {
+				// a parameter that cannot be marshalled: (nil, error) at once, nothing stays configured, no id consumed
+				nBefore := len(rc.Subscriptions())
+				sub, e := rc.Subscribe(ctx, "verif", make(chan int))
+				if sub != nil || e == nil || len(rc.Subscriptions()) != nBefore {
+					d.oracle = append(d.oracle, "Subscribe with an unmarshallable parameter did not fail cleanly")
+				}
+				select {
+				case f := <-srv.frames:
+					d.oracle = append(d.oracle, fmt.Sprintf("Subscribe with an unmarshallable parameter sent a frame (%s)", f.method))
+				default:
+				}
+				jlog("Subscribe with an unmarshallable parameter: err=%v", e)
+				st.Hit("ws:subscribe:bad-param")
 				continue
 			}
 			s := d.nextS
@@ -1173,6 +1627,7 @@ func runWSCase(r *cv.Rand, st *cv.Stats, nOps int, profile int) (string, wsDesc,
 			}
 			id, _ := parseReqID(f.idRaw)
 			d.pendSubs[s] = id
+			d.configured[s] = true
 			for _, x := range rc.Subscriptions() {
 				if !before[x.LocalID().String()] {
 					d.uuids[x.LocalID().String()] = s
@@ -1195,17 +1650,42 @@ func runWSCase(r *cv.Rand, st *cv.Stats, nOps int, profile int) (string, wsDesc,
 			}
 			sort.Ints(cands)
 			s := cands[r.Intn(len(cands))]
+			for _, cs := range cands {
+				if cs == h.unsubSub {
+					s = cs
+				}
+			}
 			k := d.nextK
 			d.nextK++
 			d.unsubbing[s] = k
 			sub := d.subObjs[s]
+			// sometimes: the consumer is not reading when a notification for s arrives, so the receive loop blocks at the
+			// hand-over; the Unsubscribe must release it (the notification is then delivered to nobody)
+			var resume chan struct{}
+			blockedX, blockedTag := idOf(s), uint64(300000+step)
+			if blockedX != 0 && r.Intn(3) == 0 {
+				resume = make(chan struct{})
+				select {
+				case d.pause[s] <- resume:
+					frame := fmt.Sprintf(`{"jsonrpc":"2.0","method":"eth_subscription","params":{"subscription":"%s","result":"%s"}}`, hexStr(blockedX), hexStr(blockedTag))
+					jlog("consumer of s=%d stops reading; server sends %s", s, frame)
+					srv.send(d.conn, frame)
+					time.Sleep(2 * time.Millisecond)
+					st.Hit("ws:unsubscribe:while-receive-loop-blocked-on-its-notification")
+				case <-time.After(longWait):
+					close(resume)
+					resume = nil
+				}
+			}
 			go func() {
 				e := sub.Unsubscribe(ctx)
 				d.unsRes <- unsubRes{s: s, err: e}
 			}()
+			jlog("Unsubscribe s=%d called", s)
 			// either an eth_unsubscribe frame appears, or it returns directly
 			select {
 			case f := <-srv.frames:
+				d.ownRelease(s)
 				id, _ := parseReqID(f.idRaw)
 				if id > d.maxID {
 					d.maxID = id
@@ -1227,7 +1707,21 @@ func runWSCase(r *cv.Rand, st *cv.Stats, nOps int, profile int) (string, wsDesc,
 				d.add(fmt.Sprintf("WUnsub %d %d (Some (%d, %d))", s, k, id, xv), fmt.Sprintf("Unsubscribe s=%d eth_unsubscribe id=%s sub=%s", s, f.idRaw, xs))
 				delete(d.active, s)
 				st.Hit("ws:unsubscribe:active")
+				if resume != nil {
+					// in the model: the equivalent order Unsubscribe ; notification (dropped: s owns nothing any more)
+					if d.barrier() {
+						b, bd := d.ops[len(d.ops)-1], d.dops[len(d.dops)-1]
+						d.ops, d.dops = d.ops[:len(d.ops)-1], d.dops[:len(d.dops)-1]
+						ns, evs := d.takeNotifs(0)
+						if len(evs) > 0 {
+							d.oracle = append(d.oracle, fmt.Sprintf("a notification that could not be handed to subscription %d before it was unsubscribed reached subscription %d afterwards", s, evs[0].s))
+						}
+						d.add(fmt.Sprintf("WFrame (FNotif (Some %d) %d) %s", blockedX, blockedTag, ns), "notification for the subscription being unsubscribed -> notifications "+ns)
+						d.add(b, bd)
+					}
+				}
 			case ur := <-d.unsRes:
+				d.ownRelease(s)
 				d.add(fmt.Sprintf("WUnsub %d %d None", s, k), fmt.Sprintf("Unsubscribe s=%d (no frame)", s))
 				d.unsRes <- ur
 				d.drain(grace)
@@ -1235,10 +1729,61 @@ func runWSCase(r *cv.Rand, st *cv.Stats, nOps int, profile int) (string, wsDesc,
 			case <-time.After(longWait):
 				d.failed = "unsubscribe neither sent a frame nor returned"
 			}
+			if resume != nil {
+				close(resume)
+			}
 		case c < 84: // ---- drop the connection
 			nConf := len(rc.Subscriptions())
 			waitingCalls := sortedKeys(d.outCalls)
-			srv.closeConn(d.conn)
+			jlog("server closes the connection")
+			if r.Intn(3) == 0 {
+				// the connection stays down for a while: calls made with an already cancelled context fail in
+				// wsclient.Send (registered, id allocated, nothing sent)
+				gate := make(chan struct{})
+				srv.setHold(gate)
+				srv.closeConn(d.conn)
+				select {
+				case <-srv.held:
+				case <-time.After(longWait):
+					d.failed = "client did not try to reconnect"
+				}
+				dead, kill := context.WithCancel(ctx)
+				kill()
+				for n := r.Intn(3); n > 0 && d.failed == ""; n-- {
+					if r.Bool() {
+						k := d.nextK
+						d.nextK++
+						var out interface{}
+						e := rc.CallRPC(dead, &out, "verif_call", k)
+						raw, _ := json.Marshal(out)
+						d.add(fmt.Sprintf("WCallSendFail %d %s", k, d.observeCall(callRes{k: k, err: e, raw: raw})), fmt.Sprintf("CallRPC k=%d with a cancelled context while the connection is down: err=%v", k, e))
+						st.Hit("ws:down:call-send-fails")
+					} else {
+						s := d.nextS
+						d.nextS++
+						sub, e := rc.Subscribe(dead, "verif", s)
+						code := 2
+						if sub != nil && e == nil {
+							code = 0
+						} else if sub != nil {
+							code = 1
+						}
+						d.add(fmt.Sprintf("WSubSendFail %d %d", s, code), fmt.Sprintf("Subscribe s=%d with a cancelled context while the connection is down: code=%d err=%v", s, code, e))
+						st.Hit("ws:down:subscribe-send-fails")
+					}
+				}
+				srv.setHold(nil)
+				close(gate)
+			} else {
+				srv.closeConn(d.conn)
+			}
+			d.ownDrop()
+			for _, s := range sortedKeys(d.pendSubs) {
+				d.staleSubReqs = append(d.staleSubReqs, d.pendSubs[s])
+			}
+			for _, k := range waitingCalls {
+				d.staleCalls = append(d.staleCalls, d.outCalls[k])
+			}
 			select {
 			case d.conn = <-srv.accepts:
 			case <-time.After(longWait):
@@ -1330,6 +1875,7 @@ func runWSCase(r *cv.Rand, st *cv.Stats, nOps int, profile int) (string, wsDesc,
 			s := ws[r.Intn(len(ws))]
 			d.subCancel[s]()
 			d.subCancelled[s] = true
+			d.ownRelease(s)
 			d.add(fmt.Sprintf("WCancelSub %d", s), fmt.Sprintf("cancel Subscribe s=%d", s))
 			d.collect(nil, []int{s}, nil)
 			// its eth_subscribe stays registered in the client; a confirm may still be sent by the script
@@ -1338,13 +1884,18 @@ func runWSCase(r *cv.Rand, st *cv.Stats, nOps int, profile int) (string, wsDesc,
 			d.subsCheck()
 		}
 	}
-	if d.failed == "" {
+	if d.failed == "" && len(d.oracle) == 0 && profile%3 == 2 {
+		d.unsubscribeAll(ctx)
+	}
+	if d.failed == "" && len(d.oracle) == 0 {
 		d.subsCheck()
 		if profile%2 == 0 {
 			// finish: drop once more, everything outstanding must complete
 			waitingCalls := sortedKeys(d.outCalls)
 			nConf := len(rc.Subscriptions())
+			jlog("server closes the connection (final)")
 			srv.closeConn(d.conn)
+			d.ownDrop()
 			select {
 			case d.conn = <-srv.accepts:
 				resub := []string{}
@@ -1379,7 +1930,513 @@ func runWSCase(r *cv.Rand, st *cv.Stats, nOps int, profile int) (string, wsDesc,
 	}
 	// close the client before its context is cancelled (wsclient.Close is not safe to run twice concurrently)
 	coq := fmt.Sprintf("CWs [%s]", strings.Join(d.ops, "; "))
-	return coq, wsDesc{Kind: "ws", Ops: d.dops}, d.failed
+	return coq, wsDesc{Kind: "ws", Ops: d.dops}, d.failed, d.oracle
+}
+
+// ---------------------------------------------------------------------------------------------
+// Known finding C18/subscribe-straddles-reconnect: the deterministic witness, through the public API.
+// Subscribe() registers its subscription (addConfiguredSub) and then marshals the parameters
+// (buildRequest, inside sendSubscribe) before addInflightSub: a parameter whose first MarshalJSON blocks
+// holds that window open.  Meanwhile the server drops the connection; handleReconnect snapshots the
+// configured subscriptions (this one included) and re-requests it; then Subscribe() goes on and sends its own
+// eth_subscribe.  Oracle (independent of the model): the frames the server receives for that one
+// subscription on the new connection, and the notifications its consumer receives for one event.
+// ---------------------------------------------------------------------------------------------
+
+type blockingParam struct {
+	calls   int32
+	entered chan struct{}
+	release chan struct{}
+}
+
+func (b *blockingParam) MarshalJSON() ([]byte, error) {
+	if atomic.AddInt32(&b.calls, 1) == 1 {
+		close(b.entered)
+		<-b.release
+	}
+	return []byte(`"blocker"`), nil
+}
+
+func runStraddleWitness(st *cv.Stats) interface{} {
+	st.Hit("ws:witness:subscribe-straddles-reconnect")
+	srv := newWSServer()
+	defer srv.srv.Close()
+	ctx, cancelAll := context.WithCancel(context.Background())
+	defer cancelAll()
+	rc := rpcbackend.NewWSRPCClient(&wsclient.WSConfig{HTTPURL: srv.srv.URL, InitialDelay: 500 * time.Microsecond, MaximumDelay: 2 * time.Millisecond})
+	if err := rc.Connect(ctx); err != nil {
+		return nil
+	}
+	defer rc.Close()
+	var hist []string
+	say := func(f string, a ...interface{}) { hist = append(hist, fmt.Sprintf(f, a...)); jlog(f, a...) }
+	conn := 0
+	select {
+	case conn = <-srv.accepts:
+	case <-time.After(longWait):
+		return nil
+	}
+	bp := &blockingParam{entered: make(chan struct{}), release: make(chan struct{})}
+	released := false
+	defer func() {
+		if !released {
+			close(bp.release)
+		}
+	}()
+	type sr struct {
+		s rpcbackend.Subscription
+		e *rpcbackend.RPCError
+	}
+	done := make(chan sr, 1)
+	go func() {
+		s, e := rc.Subscribe(ctx, "newHeads", bp)
+		done <- sr{s, e}
+	}()
+	select {
+	case <-bp.entered:
+	case <-time.After(longWait):
+		return nil
+	}
+	say("Subscribe(newHeads) called: subscription registered, request not yet allocated (parameter marshalling blocks)")
+	srv.closeConn(conn)
+	select {
+	case conn = <-srv.accepts:
+	case <-time.After(longWait):
+		return nil
+	}
+	say("server closed the connection; client reconnected")
+	next := func(wait time.Duration) (wsFrame, bool) {
+		select {
+		case f := <-srv.frames:
+			return f, true
+		case <-time.After(wait):
+			return wsFrame{}, false
+		}
+	}
+	var reqs []wsFrame
+	f1, ok := next(2 * time.Second)
+	if ok && f1.method == "eth_subscribe" && f1.conn == conn {
+		reqs = append(reqs, f1)
+		say("new connection: eth_subscribe id=%s received (sent by handleReconnect)", f1.idRaw)
+	}
+	released = true
+	close(bp.release)
+	say("Subscribe() continues")
+	f2, ok := next(2 * time.Second)
+	if ok && f2.method == "eth_subscribe" && f2.conn == conn {
+		reqs = append(reqs, f2)
+		say("new connection: eth_subscribe id=%s received", f2.idRaw)
+	}
+	if f3, ok := next(20 * time.Millisecond); ok && f3.method == "eth_subscribe" && f3.conn == conn {
+		reqs = append(reqs, f3)
+		say("new connection: eth_subscribe id=%s received", f3.idRaw)
+	}
+	if len(reqs) == 0 {
+		return nil // inconclusive (nothing arrived in time): the check notes that the finding was not reproduced
+	}
+	for i, f := range reqs {
+		srv.send(conn, fmt.Sprintf(`{"jsonrpc":"2.0","id":%s,"result":"%s"}`, f.idRaw, hexStr(uint64(0xaa0+i))))
+		say("server confirms id=%s with server subscription %s", f.idRaw, hexStr(uint64(0xaa0+i)))
+	}
+	var res sr
+	select {
+	case res = <-done:
+	case <-time.After(longWait):
+		return map[string]interface{}{"what": "Subscribe() did not return although its request was confirmed", "history": hist}
+	}
+	if res.s == nil || res.e != nil {
+		return map[string]interface{}{"what": "Subscribe() failed although its request was confirmed", "history": hist}
+	}
+	// one event: the server notifies once per server-side subscription it was asked to create
+	for i := range reqs {
+		srv.send(conn, fmt.Sprintf(`{"jsonrpc":"2.0","method":"eth_subscription","params":{"subscription":"%s","result":"0x1"}}`, hexStr(uint64(0xaa0+i))))
+	}
+	got := 0
+	timeout := time.After(2 * time.Second)
+collect:
+	for got < len(reqs) {
+		select {
+		case <-res.s.Notifications():
+			got++
+			timeout = time.After(100 * time.Millisecond)
+		case <-timeout:
+			break collect
+		}
+	}
+	say("one event notified on each server-side subscription: the consumer of the one local subscription received %d notifications", got)
+	// (no Unsubscribe here: a later notification on the leftover id would be sent on the closed channel and end the process)
+	if len(reqs) == 1 && got == 1 {
+		return nil
+	}
+	return map[string]interface{}{
+		"key":     "C18/subscribe-straddles-reconnect",
+		"what":    fmt.Sprintf("a subscription registered by Subscribe() while the connection drops was requested %d times on the new connection (expected once); its consumer received %d notifications for one event", len(reqs), got),
+		"history": hist,
+	}
+}
+
+// Second witness of the same finding, without any special parameter: Subscribe() is called while the connection is
+// down.  It registers the subscription, allocates its request and blocks in wsclient.Send; when the connection comes
+// back the send loop of the new connection starts before handleReconnect runs, so both the blocked frame (whose
+// request id handleReconnect has meanwhile forgotten) and handleReconnect's re-request reach the server.
+func runSubscribeWhileDown(st *cv.Stats) interface{} {
+	st.Hit("ws:witness:subscribe-while-down")
+	srv := newWSServer()
+	defer srv.srv.Close()
+	ctx, cancelAll := context.WithCancel(context.Background())
+	defer cancelAll()
+	rc := rpcbackend.NewWSRPCClient(&wsclient.WSConfig{HTTPURL: srv.srv.URL, InitialDelay: 500 * time.Microsecond, MaximumDelay: 2 * time.Millisecond})
+	if err := rc.Connect(ctx); err != nil {
+		return nil
+	}
+	defer rc.Close()
+	var hist []string
+	say := func(f string, a ...interface{}) { hist = append(hist, fmt.Sprintf(f, a...)); jlog(f, a...) }
+	conn := 0
+	select {
+	case conn = <-srv.accepts:
+	case <-time.After(longWait):
+		return nil
+	}
+	gate := make(chan struct{})
+	opened := false
+	defer func() {
+		if !opened {
+			close(gate)
+		}
+	}()
+	srv.setHold(gate)
+	srv.closeConn(conn)
+	say("server closed the connection and does not accept the next one yet")
+	select {
+	case <-srv.held: // the client has given up the old connection (its send loop has ended) and is dialling
+	case <-time.After(longWait):
+		return nil
+	}
+	done := make(chan *rpcbackend.RPCError, 1)
+	go func() {
+		_, e := rc.Subscribe(ctx, "newHeads")
+		done <- e
+	}()
+	// Subscribe must be inside wsclient.Send when the connection comes back: it has nothing else to wait for
+	time.Sleep(30 * time.Millisecond)
+	say("Subscribe(newHeads) called while the connection is down")
+	srv.setHold(nil)
+	opened = true
+	close(gate)
+	select {
+	case conn = <-srv.accepts:
+	case <-time.After(longWait):
+		return nil
+	}
+	say("connection re-established")
+	var reqs []wsFrame
+	wait := 2 * time.Second
+	for {
+		var f wsFrame
+		ok := false
+		select {
+		case f = <-srv.frames:
+			ok = true
+		case <-time.After(wait):
+		}
+		if !ok {
+			break
+		}
+		wait = 50 * time.Millisecond
+		if f.method == "eth_subscribe" && f.conn == conn {
+			reqs = append(reqs, f)
+			say("new connection: eth_subscribe id=%s received", f.idRaw)
+		}
+	}
+	if len(reqs) == 0 {
+		return nil // inconclusive
+	}
+	for i, f := range reqs {
+		srv.send(conn, fmt.Sprintf(`{"jsonrpc":"2.0","id":%s,"result":"%s"}`, f.idRaw, hexStr(uint64(0xbb0+i))))
+	}
+	select {
+	case <-done:
+	case <-time.After(longWait):
+		return map[string]interface{}{"what": "Subscribe() called while the connection was down did not return after its request was confirmed", "history": hist}
+	}
+	if len(reqs) == 1 {
+		return nil
+	}
+	return map[string]interface{}{
+		"key":     "C18/subscribe-straddles-reconnect",
+		"what":    fmt.Sprintf("a subscription registered by Subscribe() while the connection was down was requested %d times on the new connection (expected once)", len(reqs)),
+		"history": hist,
+	}
+}
+
+// ---------------------------------------------------------------------------------------------
+// WebSocket, free-running: many goroutines call CallRPC at once while a few subscriptions receive notifications; the
+// server answers out of order (batches in reverse), repeats replies, invents ids and drops the connection every now
+// and then.  Oracles (implementation alone): every call returns, in bounded time, the result of its OWN request or
+// an error; request ids on the wire are unique; every notification a consumer receives was addressed to it.
+// ---------------------------------------------------------------------------------------------
+func runWSStress(r *cv.Rand, st *cv.Stats, nCallers, perCaller, nSubs, drops int, fails *[]interface{}) {
+	type pend struct{ id, p0 string }
+	var mu sync.Mutex
+	seenIDs := map[string]int{}
+	connNo := 0
+	nextSub := 0
+	seeds := make([]int64, 64)
+	for i := range seeds {
+		seeds[i] = int64(r.Intn(1 << 30))
+	}
+	up := websocket.Upgrader{}
+	srv := httptest.NewServer(http.HandlerFunc(func(w http.ResponseWriter, req *http.Request) {
+		c, err := up.Upgrade(w, req, nil)
+		if err != nil {
+			return
+		}
+		defer c.Close()
+		mu.Lock()
+		me := connNo
+		connNo++
+		mu.Unlock()
+		lr := cv.NewRand(uint64(seeds[me%len(seeds)]))
+		dropAfter := -1
+		if me < drops {
+			dropAfter = 15 + lr.Intn(40)
+		}
+		var wmu sync.Mutex
+		write := func(s string) {
+			wmu.Lock()
+			_ = c.WriteMessage(websocket.TextMessage, []byte(s))
+			wmu.Unlock()
+		}
+		var held []pend
+		subs := map[string]string{} // server id -> the parameter its subscription was created with
+		var hmu sync.Mutex          // held, subs, lr
+		flush := func() {
+			hmu.Lock()
+			defer hmu.Unlock()
+			for i := len(held) - 1; i >= 0; i-- { // reverse order
+				h := held[i]
+				write(fmt.Sprintf(`{"jsonrpc":"2.0","id":%s,"result":%s}`, h.id, h.p0))
+				if lr.Intn(8) == 0 {
+					write(fmt.Sprintf(`{"jsonrpc":"2.0","id":%s,"result":"dup"}`, h.id)) // duplicate with another result
+				}
+				if lr.Intn(16) == 0 {
+					write(`{"jsonrpc":"2.0","id":"000900001","result":"nobody"}`)
+				}
+			}
+			held = held[:0]
+			for x, p := range subs {
+				if lr.Intn(3) == 0 {
+					write(fmt.Sprintf(`{"jsonrpc":"2.0","method":"eth_subscription","params":{"subscription":"%s","result":%s}}`, x, p))
+				}
+			}
+		}
+		connDone := make(chan struct{})
+		defer close(connDone)
+		go func() {
+			// whatever is still held is answered after a millisecond of quiet
+			t := time.NewTicker(time.Millisecond)
+			defer t.Stop()
+			for {
+				select {
+				case <-t.C:
+					flush()
+				case <-connDone:
+					return
+				}
+			}
+		}()
+		n := 0
+		for {
+			_, msg, err := c.ReadMessage()
+			if err != nil {
+				return
+			}
+			var rq struct {
+				ID     json.RawMessage   `json:"id"`
+				Method string            `json:"method"`
+				Params []json.RawMessage `json:"params"`
+			}
+			_ = json.Unmarshal(msg, &rq)
+			mu.Lock()
+			seenIDs[string(rq.ID)]++
+			mu.Unlock()
+			n++
+			switch rq.Method {
+			case "eth_subscribe":
+				mu.Lock()
+				nextSub++
+				x := fmt.Sprintf("0x%x", 0x5000+nextSub)
+				mu.Unlock()
+				p := `"?"`
+				if len(rq.Params) > 1 {
+					p = string(rq.Params[1])
+				}
+				hmu.Lock()
+				subs[x] = p
+				hmu.Unlock()
+				write(fmt.Sprintf(`{"jsonrpc":"2.0","id":%s,"result":"%s"}`, rq.ID, x))
+			default:
+				p0 := `"?"`
+				if len(rq.Params) > 0 {
+					p0 = string(rq.Params[0])
+				}
+				hmu.Lock()
+				held = append(held, pend{string(rq.ID), p0})
+				full := len(held) >= 2+lr.Intn(6)
+				hmu.Unlock()
+				if full {
+					flush()
+				}
+			}
+			if dropAfter > 0 && n >= dropAfter {
+				if tc, ok := c.UnderlyingConn().(*net.TCPConn); ok {
+					_ = tc.SetLinger(0)
+				}
+				return // closes the connection with requests unanswered
+			}
+		}
+	}))
+	defer srv.Close()
+	ctx, cancelAll := context.WithCancel(context.Background())
+	defer cancelAll()
+	rc := rpcbackend.NewWSRPCClient(&wsclient.WSConfig{HTTPURL: srv.URL, InitialDelay: 500 * time.Microsecond, MaximumDelay: 2 * time.Millisecond})
+	if err := rc.Connect(ctx); err != nil {
+		return
+	}
+	defer rc.Close()
+	var wrongNotif, gotNotif int64
+	var firstBad atomic.Value
+	for i := 0; i < nSubs; i++ {
+		tag := fmt.Sprintf("sub-%d", i)
+		sctx, cancel := context.WithTimeout(ctx, 5*time.Second)
+		sub, e := rc.Subscribe(sctx, "verif", tag)
+		cancel()
+		if e != nil || sub == nil {
+			continue
+		}
+		go func(tag string, ch chan *rpcbackend.RPCSubscriptionNotification) {
+			for {
+				select {
+				case nf, ok := <-ch:
+					if !ok {
+						return
+					}
+					atomic.AddInt64(&gotNotif, 1)
+					if nf.Result == nil || string(*nf.Result) != `"`+tag+`"` {
+						atomic.AddInt64(&wrongNotif, 1)
+						firstBad.CompareAndSwap(nil, fmt.Sprintf("consumer of %s received a notification addressed to %v", tag, nf.Result))
+					}
+				case <-ctx.Done():
+					return
+				}
+			}
+		}(tag, sub.Notifications())
+	}
+	var wg sync.WaitGroup
+	var own, errs, wrong, hung int64
+	for c := 0; c < nCallers; c++ {
+		wg.Add(1)
+		go func(c int) {
+			defer wg.Done()
+			for j := 0; j < perCaller; j++ {
+				tag := fmt.Sprintf("c%d-%d", c, j)
+				cctx, cancel := context.WithTimeout(ctx, 8*time.Second)
+				var out string
+				e := rc.CallRPC(cctx, &out, "verif_stress", tag)
+				timedOut := cctx.Err() != nil
+				cancel()
+				switch {
+				case e == nil && out == tag:
+					atomic.AddInt64(&own, 1)
+				case e == nil:
+					atomic.AddInt64(&wrong, 1)
+					firstBad.CompareAndSwap(nil, fmt.Sprintf("call %s returned the result %q", tag, out))
+				case timedOut:
+					atomic.AddInt64(&hung, 1)
+					firstBad.CompareAndSwap(nil, fmt.Sprintf("call %s did not complete within 8 s", tag))
+				default:
+					atomic.AddInt64(&errs, 1)
+				}
+			}
+		}(c)
+	}
+	wg.Wait()
+	mu.Lock()
+	dups := 0
+	for _, n := range seenIDs {
+		if n > 1 {
+			dups++
+		}
+	}
+	conns := connNo
+	mu.Unlock()
+	if wrong > 0 || hung > 0 || wrongNotif > 0 || dups > 0 {
+		*fails = append(*fails, map[string]interface{}{"what": "WebSocket client under concurrent callers: a call returned a result that is not its own, hung, a notification reached the wrong subscription, or a request id was used twice",
+			"callers": nCallers, "wrong_results": wrong, "hung": hung, "wrong_notifications": wrongNotif, "duplicate_ids": dups, "first": firstBad.Load()})
+	}
+	st.Hit(fmt.Sprintf("ws-stress:callers=%d:subs=%d:connections=%d", nCallers, nSubs, conns))
+	st.Extra[fmt.Sprintf("ws_stress_%d_callers", nCallers)] = map[string]int64{"own_result": own, "errors_after_drop": errs, "notifications": gotNotif, "connections": int64(conns)}
+	st.Evaluations += nCallers * perCaller
+}
+
+// The parent process: runs the harness proper as a child.  The clients under test start goroutines of their own; a
+// panic there (e.g. a send on a closed notifications channel) ends the process and cannot be recovered in-process.
+// The parent then reports the journal of the sequence that was running as a failing input of the implementation.
+func supervise(out string) {
+	args := append([]string{"-child"}, os.Args[1:]...)
+	cmd := exec.Command(os.Args[0], args...)
+	cmd.Stdout = os.Stdout
+	var errbuf strings.Builder
+	cmd.Stderr = &errbuf
+	err := cmd.Run()
+	if err == nil {
+		fmt.Fprint(os.Stderr, errbuf.String())
+		return
+	}
+	stderr := errbuf.String()
+	// the sequence that was running: the journal from its last "===" line
+	var hist []string
+	if b, e := os.ReadFile(filepath.Join(out, "journal_C18.txt")); e == nil {
+		lines := strings.Split(strings.TrimRight(string(b), "\n"), "\n")
+		start := 0
+		for i, l := range lines {
+			if strings.HasPrefix(l, "=== ") {
+				start = i
+			}
+		}
+		hist = lines[start:]
+	}
+	first := []string{}
+	for _, l := range strings.Split(stderr, "\n") {
+		if strings.HasPrefix(l, "panic:") || strings.HasPrefix(l, "fatal error:") || strings.Contains(l, "pkg/rpcbackend") {
+			first = append(first, strings.TrimSpace(l))
+		}
+		if len(first) >= 6 {
+			break
+		}
+	}
+	if len(first) == 0 {
+		// not a crash of the code under test: let the check see the failure of the harness itself
+		fmt.Fprint(os.Stderr, stderr)
+		os.Exit(1)
+	}
+	// remove anything half written
+	if ms, _ := filepath.Glob(filepath.Join(out, "cases_C18_*")); ms != nil {
+		for _, m := range ms {
+			_ = os.Remove(m)
+		}
+	}
+	st := cv.NewStats()
+	st.Rule = "the harness process was brought down by the code under test; no cases were written"
+	st.ImplFailures = append(st.ImplFailures, map[string]interface{}{
+		"what":    "the client panicked (process exit) during this sequence: " + strings.Join(first, " | "),
+		"history": hist,
+	})
+	if err := st.Write(filepath.Join(out, "stats_C18.json")); err != nil {
+		panic(err)
+	}
+	fmt.Printf("C18 harness: the client under test crashed the process (%s); reported as a failing input with its history (%d operations)\n", first[0], len(hist))
 }
 
 func min(a, b int) int {
@@ -1395,12 +2452,21 @@ func main() {
 	out := flag.String("out", "", "output directory")
 	tier := flag.String("tier", "quick", "quick|thorough")
 	replay := flag.String("replay", "", "replay file")
+	child := flag.Bool("child", false, "internal: do the work (the parent only supervises, see supervise)")
 	flag.Parse()
 	if *out == "" {
 		fmt.Fprintln(os.Stderr, "need -out")
 		os.Exit(2)
 	}
 	_ = os.MkdirAll(*out, 0o755)
+	if !*child && *replay == "" {
+		supervise(*out)
+		return
+	}
+	if f, err := os.Create(filepath.Join(*out, "journal_C18.txt")); err == nil {
+		journal = f
+		defer f.Close()
+	}
 	logrus.SetOutput(io.Discard)
 	logrus.SetLevel(logrus.PanicLevel)
 	header := "From Coq Require Import List NArith.\nFrom FFS Require Import WsClient.Model WsClient.Run.\nImport ListNotations.\nOpen Scope N_scope."
@@ -1446,6 +2512,7 @@ func main() {
 		plan = append(plan, lc{1 + r.Intn(8), 1 + r.Intn(64)})
 	}
 	for _, p := range plan {
+		jlog("=== HTTP sequence: limit %d, %d callers", p.limit, p.callers)
 		coq, d := runHTTPCase(r, st, p.limit, p.callers, &fails)
 		addCase(coq, d)
 	}
@@ -1466,8 +2533,21 @@ func main() {
 		nWS, nOps = 800, 40
 	}
 	flaky := 0
+	// ---- WebSocket: the fixed witness of the known finding C18/subscribe-straddles-reconnect (every run)
+	jlog("=== WebSocket: Subscribe() straddling a reconnect")
+	if f := runStraddleWitness(st); f != nil {
+		fails = append(fails, f)
+	}
+	jlog("=== WebSocket: Subscribe() while the connection is down")
+	if f := runSubscribeWhileDown(st); f != nil {
+		fails = append(fails, f)
+	}
 	for i := 0; i < nWS; i++ {
-		coq, d, failed := runWSCase(r, st, nOps+r.Intn(8), i)
+		jlog("=== WebSocket sequence %d", i)
+		coq, d, failed, oracle := runWSCase(r, st, nOps+r.Intn(8), i)
+		for _, o := range oracle {
+			fails = append(fails, map[string]interface{}{"what": "WebSocket client: " + o, "ops": d.Ops})
+		}
 		if failed != "" {
 			// the driver lost synchronisation with the client: a missing frame / return is itself an observation
 			flaky++
@@ -1475,6 +2555,17 @@ func main() {
 			continue
 		}
 		addCase(coq, d)
+	}
+	// ---- WebSocket: free-running
+	for _, p := range []struct{ callers, per, subs, drops int }{{8, 12, 2, 2}, {64, 6, 3, 3}, {24, 10, 1, 0}} {
+		jlog("=== WebSocket stress: %d callers", p.callers)
+		runWSStress(r, st, p.callers, p.per, p.subs, p.drops, &fails)
+	}
+	if thorough {
+		for i := 0; i < 12; i++ {
+			jlog("=== WebSocket stress (thorough) %d", i)
+			runWSStress(r, st, 1+r.Intn(64), 20, r.Intn(4), r.Intn(6), &fails)
+		}
 	}
 	st.Extra["ws_sequences"] = nWS
 	st.Extra["ws_driver_failures"] = flaky
